@@ -109,6 +109,8 @@ def oracle_for_source(src, outdir, zones, tag='src'):
     out = []
     for n in zones:
         init = state_at(os.path.join(zdir, n), 915148800)
+        if not init[2]:
+            raise RuntimeError('the C library cannot read the zic output for %s (degenerate zone); not usable as an oracle' % n)
         tr = transitions(zdump(zdir, n), init)
         segs = [(-(1 << 60), init[0], init[1], init[2])] + [(t - EPOCH_2000, off, dst, ab) for (t, off, dst, ab) in tr]
         out.append((n, segs))
